@@ -100,7 +100,7 @@ let () = main_loop (fun w -> match w with
         (getopt (List.map cps_of_string argv) cli_long_opts)
   | "excl" :: names -> let l = List.map cps_of_string names in s01 (excl (fun n -> memstr n l))
   | ["proxy"; b] ->
-      let f g = s01 (g (bits b 0) (bits b 1) (bits b 2) (bits b 3) (bits b 4) (bits b 5)) in
+      let f g = s01 (g (bits b 0) (bits b 1) (bits b 2) (bits b 3) (bits b 4) (bits b 5) (bits b 6)) in
       f proxy_refused ^ f proxy_count_defaulted ^ f proxy_headers_defaulted
   | ["fam"; b] ->
       s01 (families_refused (bits b 0) (bits b 1) (bits b 2))
